@@ -1,6 +1,8 @@
 (* C12 - Parameter statistics equal their definitions and agree with what fuse wrote. *)
 From Coq Require Import ZArith QArith List Bool Permutation.
 From HV Require Import Base.QSum Kernel.Fit Stats.Param Stats.ParamProofs.
+From HVgen Require Import Formulas.
+From HV Require Import Tie.FormulaTie.
 Import ListNotations.
 Open Scope Q_scope.
 
@@ -50,3 +52,12 @@ Print Assumptions C12_prepass_loses_nothing.
 (* R2 bands are the last third of the bands *)
 Example C12_r2_bands : map (is_r2_band 6) [0; 1; 2; 3; 4; 5]%Z = [false; false; false; false; true; true].
 Proof. vm_compute. reflexivity. Qed.
+
+(* ---- tie to the source: the arithmetic of _get_image_stats in the current stats.py is that of Stats.Param.band_stats (mean, the variance
+        under the square root - clamped at zero, which only absorbs negative rounding -, in-paint percentage, min / max passed through) *)
+Theorem C12_source_arithmetic_is_the_model (a : accum) :
+  let S := a_sum a in let S2 := a_sum2 a in let n := a_n a in let I := a_inp a in
+  gen_st_mean S S2 n I == a_sum a / a_n a /\ gen_st_var S S2 n I == a_sum2 a / a_n a - (a_sum a * a_sum a) / (a_n a * a_n a) /\
+  gen_st_inpaint_p S S2 n I == (100 * a_inp a) / a_n a /\ gen_st_minmax_ok = true /\ gen_st_var_clamped_at_zero = true.
+Proof. exact (tie_stats a). Qed.
+Print Assumptions C12_source_arithmetic_is_the_model.
